@@ -883,10 +883,10 @@ class IntronPathProcessor:
     def thread_ends(self, intron, end, trusted=False):
         possible_polyas = self.intron_graph.get_outgoing(intron, VERTEX_polya)
         if trusted:
-            # find closes polyA
-            for v in possible_polyas:
-                if abs(v[1] - end) <= self.params.apa_delta:
-                    return v
+            # find closest polyA (the outer one of two equally distant sites)
+            close_polyas = [v for v in possible_polyas if abs(v[1] - end) <= self.params.apa_delta]
+            if close_polyas:
+                return min(close_polyas, key=lambda v: (abs(v[1] - end), -v[1]))
 
         outgoing_introns = self.intron_graph.get_outgoing(intron)
         if len(outgoing_introns) > 0:
@@ -897,8 +897,9 @@ class IntronPathProcessor:
                 return None
 
         # consider all terminal position available for intron
-        all_possible_ends = sorted(list(self.intron_graph.get_outgoing(intron, VERTEX_read_end)) +
-                                   list(possible_polyas), key=lambda x:x[1])
+        # polyA vertices first: at equal coordinates the read end is the outermost vertex, as the read start is in thread_starts
+        all_possible_ends = sorted(list(possible_polyas) +
+                                   list(self.intron_graph.get_outgoing(intron, VERTEX_read_end)), key=lambda x:x[1])
         if len(all_possible_ends) == 0:
             return None
 
@@ -915,10 +916,10 @@ class IntronPathProcessor:
     def thread_starts(self, intron, start, trusted=False):
         possible_polyas = self.intron_graph.get_incoming(intron, VERTEX_polyt)
         if trusted:
-            # find closes polyT
-            for v in possible_polyas:
-                if abs(v[1] - start) <= self.params.apa_delta:
-                    return v
+            # find closest polyT (the outer one of two equally distant sites)
+            close_polyts = [v for v in possible_polyas if abs(v[1] - start) <= self.params.apa_delta]
+            if close_polyts:
+                return min(close_polyts, key=lambda v: (abs(v[1] - start), v[1]))
 
         incoming_introns = self.intron_graph.get_incoming(intron)
         if len(incoming_introns) > 0:
@@ -936,8 +937,9 @@ class IntronPathProcessor:
         leftmost_start = all_possible_starts[0]
         if trusted and start <= leftmost_start[1] and leftmost_start[0] == VERTEX_read_start:
             return leftmost_start
-        elif not trusted and start >= leftmost_start[1] and \
+        elif not trusted and start >= leftmost_start[1] - self.params.apa_delta and \
                 (len(all_possible_starts) <= 1 or start < all_possible_starts[1][1]):
+            # non trusted should start after leftmost position - apa_delta but not later than second first (mirror of thread_ends)
             return leftmost_start
         return None
 
